@@ -32,6 +32,7 @@ LEVEL_NOTE = ("Partial: the lifting of the block theorems through the sweep loop
               "proofs is re-checked by the kernel with the VM (vm_cast). Rounding not modelled.")
 TECHNIQUE = "Coq proof (loop invariants, field, VM-checked symbolic evaluation) over kernels regenerated from source"
 PROPS = 'Props/C03.v'
+SEARCH_IN_QUICK = True   # the sweeps and line smoothers are not covered by theorems
 GEN = ['CoreBand', 'CoreGS', 'CoreAmat']
 TRUSTED = ["vm_compute-based conversion (vm_cast) inside the block-row proofs"]
 ASSUMES = ["pivots of the pivot-free factorisation do not vanish (hypothesis of the solver theorems)"]
